@@ -131,6 +131,21 @@ class ScriptChannel:
         self.sim.on_send(data)
 
 
+def blind(line):
+    """the model's line as seen by an application that dropped the result: slots, readyAt and expiry hidden"""
+    import re
+    head, st = line.split(" st ", 1)
+    m = re.match(r"\S+ \S+ \S+ cb\[[^\]]*\] (log\[[^\]]*\]) ra\S+ (live\S+ ch\d+ busy\[[^\]]*\]) ttl\S+$", st)
+    return line if not m else "%s st ? ? ? cb[?] %s ra? %s ttl?" % (head, m.group(1), m.group(2))
+
+
+def no_ra(line):
+    """once the application has dropped a result the harness cannot tell at which instant it became ready: the ghost
+    `readyAt` is left out of the comparison for such sequences (the callback log carries the instants that matter)"""
+    import re
+    return re.sub(r" ra\S+ live", " ra? live", line)
+
+
 class CB:
     """a callback with an identity; records (id, instant)"""
     __slots__ = ("cid", "sim")
@@ -139,7 +154,7 @@ class CB:
         self.cid, self.sim = cid, sim
 
     def __call__(self, res):
-        self.sim.cblog.append((self.cid, self.sim.clock.now, res is self.sim.res))
+        self.sim.cblog.append((self.cid, self.sim.clock.now, self.sim.res is None or res is self.sim.res))
 
 
 def fmt_t(x):
@@ -189,7 +204,7 @@ class Sim:
         msg, seq, _args = brine.load(data)
         if msg == self.consts.MSG_REQUEST and _args[0] != self.consts.HANDLE_DEL:
             self.seq = seq
-            cb = self.conn._request_callbacks.get(seq)
+            cb = rc_get(self.conn._request_callbacks, seq)
             if cb is not None and type(cb).__name__ == "AsyncResult":
                 self.res = cb
 
@@ -241,12 +256,14 @@ class Sim:
                 out = "raised:" + type(ex).__name__
         res = self.res
         self.chan.idle_polls = 0
-        if res._is_ready and self.ra_for is not res and self.reply_times:
+        if res is not None and res._is_ready and self.ra_for is not res and self.reply_times:
             self.ra, self.ra_for = self.reply_times[-1], res
         return "%s@%s" % (out, fmt_t(self.clock.now))
 
     def _event(self, tok):
         c, res = tok[0], self.res
+        if res is None and c in "XCrexvw":
+            raise BadSequence("the application no longer holds the result")
         if c == "X":
             res.set_expiry(parse_tau(tok[1:]))
             out = "-"
@@ -297,6 +314,14 @@ class Sim:
                 self.proxy = self.conn._unbox((self.consts.LABEL_REMOTE_REF, ("builtins.function", 11, 12)))
             self.wrapper = rpyc.timed(self.proxy, parse_tau(tok[1:]))      # made now, called later (K), maybe repeatedly
             out = "-"
+        elif c == "D":
+            # the application lets go of the result: from here on only the library references it (or does not)
+            import gc
+            if self.res is None:
+                raise BadSequence("D twice")
+            self.res = self.ra_for = res = None
+            gc.collect(0)
+            out = "-"
         elif c == "K":
             if self.wrapper is None:
                 raise BadSequence("K before W")
@@ -308,6 +333,12 @@ class Sim:
 
     def state(self):
         res = self.res
+        if res is None:
+            # dropped: the slots cannot be looked at; the callback log, the registry entry, the channel and the busy log can
+            return "st ? ? ? cb[?] log[%s] ra? live%s ch%d busy[%s] ttl?" % (
+                ",".join("%d@%s" % (cid, fmt_t(t)) for cid, t, _ok in self.cblog),
+                "T" if self.seq in self.conn._request_callbacks else "F", len(self.chan.queue),
+                ",".join("%s@%s" % (fmt_t(s), fmt_t(d)) for s, d in self.busy))
         bad = [e for e in self.cblog if not e[2]]
         return "st %s %s %s cb[%s] log[%s]%s ra%s live%s ch%d busy[%s] ttl%s" % (
             tri(res._is_ready), tri(res._is_exc), self._payload(res._obj),
@@ -322,7 +353,7 @@ class Sim:
     def snapshot(self):
         r = self.res
         return (self.clock.now, list(self.chan.queue), r._is_ready, r._is_exc, r._obj, list(r._callbacks), r._ttl,
-                dict(self.conn._request_callbacks), len(self.cblog), len(self.busy), len(self.reply_times), self.ra,
+                rc_items(self.conn._request_callbacks), len(self.cblog), len(self.busy), len(self.reply_times), self.ra,
                 self.ra_for, r._conn)
 
     def restore(self, s):
@@ -331,9 +362,38 @@ class Sim:
          r._conn) = s
         self.chan.queue[:] = q
         r._callbacks[:] = cbs
-        self.conn._request_callbacks.clear()
-        self.conn._request_callbacks.update(rc)
+        rc_restore(self.conn._request_callbacks, rc)
         del self.cblog[n1:], self.busy[n2:], self.reply_times[n3:]
+
+
+def rc_get(rc, key):
+    """`conn._request_callbacks` through the mapping protocol only (whatever kind of mapping it is)"""
+    try:
+        return rc[key]
+    except KeyError:
+        return None
+
+
+def rc_keys(rc):
+    return list(rc.keys())      # (`iter()` of rpyc's WeakValueDict is not an iterator; `keys()` works on every mapping)
+
+
+def rc_items(rc):
+    out = []
+    for k in rc_keys(rc):
+        v = rc_get(rc, k)
+        if v is not None:
+            out.append((k, v))
+    return out
+
+
+def rc_restore(rc, items):
+    keep = dict(items)
+    for k in rc_keys(rc):
+        if k not in keep:
+            del rc[k]
+    for k, v in items:
+        rc[k] = v
 
 
 def tri(b):
@@ -457,6 +517,26 @@ def reuse_tokens(kind, tau, calls, callbacks=False):
     return toks
 
 
+def forget_sequences():
+    """fire-and-forget with completion callbacks: register 1-2 callbacks, the application drops the result (D), then the
+    reply is dispatched directly / taken from the channel by a later serve, before or after the expiry"""
+    out = []
+    for tau in TIMEOUTS:
+        for ncb in (1, 2):
+            for hold in (0, 1):
+                for exc in "FT":
+                    for how in (["A%s7" % exc], ["S0:R%s7" % exc, "V"], ["S2:R%s7" % exc, "T2", "V"],
+                                ["S2:R%s7" % exc, "T1", "V", "T1", "V", "V"], ["S1:O2", "S1:R%s7" % exc, "T1", "V", "V"]):
+                        for lag in (0, 1, 5):
+                            toks = ["X" + tau_tok(tau)] + ["C%d" % (k + 1) for k in range(ncb)]
+                            toks += (["T%d" % hold] if hold else []) + ["D"] + (["T%d" % lag] if lag else []) + how
+                            out.append(toks + ["T1", "V"])
+        for kind in ("Q", "Z"):
+            out.append([kind + tau_tok(tau), "C1", "C2", "D", "S1:RF7", "T1", "V"])
+            out.append([kind + tau_tok(tau), "C1", "D", "T2", "AF7", "Q" + tau_tok(tau), "C3", "S1:RT8", "v"])
+    return out
+
+
 # ------------------------------------------------------------------------------------------ seeded sequences
 def gen_sequence(r, n):
     toks = []
@@ -469,12 +549,23 @@ def gen_sequence(r, n):
     if k <= 3:
         toks.append("X" + tau_tok(tau))
     have_w = False
+    held = True
     for _ in range(n):
-        toks.append(gen_tok(r))
-        if toks[-1][0] == "W":
+        t = gen_tok(r)
+        if held and r.chance(1, 60):
+            toks.append("D")
+            held = False
+        if not held:
+            if t[0] in "XCrexvw":
+                continue           # the application let go of the result: it cannot ask it anything
+            if t[0] in "QYZ":
+                held = True
+        toks.append(t)
+        if t[0] == "W":
             have_w = True
         elif have_w and r.chance(1, 4):
             toks.append("K")
+            held = True
     return toks
 
 
@@ -657,6 +748,10 @@ def reuse_scenarios():
                                 if r > tau:
                                     steps += [("T", r - tau + 1), ("V",)]
                             out.append(steps)
+    # fire-and-forget with completion callbacks: the caller keeps no reference to the result
+    for tau in (None, 3):
+        for d in (0, 1, 2, 5):
+            out.append([("F", tau, d, 2), ("T", d + 1), ("V",), ("T", 1), ("V",)])
     return out
 
 
@@ -674,6 +769,9 @@ def reuse_tokens_of(steps):
             toks += ["Q" + tau_tok(st[1]), "S%d:RF42" % st[2]]; seen += [True, False]
         elif st[0] == "Y":
             toks += ["S%d:RF42" % st[2], "Y" + tau_tok(st[1])]; seen += [False, True]
+        elif st[0] == "F":
+            toks += ["Q" + tau_tok(st[1]), "S%d:RF42" % st[2]] + ["C%d" % (k + 1) for k in range(st[3])] + ["D"]
+            seen += [True, False] + [False] * st[3] + [False]
         else:
             toks.append(st[0]); seen.append(True)
     return toks, seen
@@ -711,6 +809,13 @@ def run_reuse_simnet(steps):
             work = ca.root.work
             t0 = net.clock.now
             res = tw = None
+            cblog = []
+
+            def fire(tau, d, ncb):
+                # the AsyncResult is referenced by the library only once this returns
+                r = ca.async_request(consts.HANDLE_CALL, work, (d,), (), timeout=tau)
+                for k in range(ncb):
+                    r.add_callback(lambda _r, k=k: cblog.append("%d@%s" % (k + 1, fmt_t(net.clock.now - t0))))
 
             def guarded(fn):
                 try:
@@ -737,6 +842,11 @@ def run_reuse_simnet(steps):
                         break
                 elif k == "T":
                     rpyc.lib.time.sleep(st[1]); o = "-"
+                elif k == "F":
+                    import gc
+                    res = None
+                    o = guarded(lambda: fire(st[1], st[2], st[3]) or "-")
+                    gc.collect(0)
                 elif k == "Y":
                     ca._config["sync_request_timeout"] = st[1]
                     o = guarded(lambda: "val:%s" % work(st[2]))
@@ -748,6 +858,7 @@ def run_reuse_simnet(steps):
                 elif k == "V":
                     guarded(lambda: ca.serve(0)); o = "-"
                 out.append("%s@%s" % (o, fmt_t(net.clock.now - t0)))
+            out.append("log[%s]" % ",".join(cblog))
         finally:
             net.shutdown([ca])
     return out
@@ -779,7 +890,8 @@ def correspondence(ctx):
               "re-arming, duplicate replies, serve(0), sync_request/timed/async_request(timeout=); a grid of requests "
               "issued late or repeatedly (a timed() wrapper made at t0 and called 2-3 times after delays 0/<tau/=tau/>tau, "
               "async_request(timeout=) repeated, sync_request on a connection older than its timeout; each reply before / "
-              "at / after that call's own deadline); whole-connection "
+              "at / after that call's own deadline); fire-and-forget (callbacks registered, the application drops its only "
+              "reference to the result, then the reply is dispatched before / after the expiry); whole-connection "
               "scenarios over the deterministic network. Non-trivial = the sequence contains a reply or an expiry "
               "and at least one query/wait; distinct = distinct full observation trace (results, instants, final slots, "
               "callback log).")
@@ -816,6 +928,10 @@ def correspondence(ctx):
         for line, want, got in zip(lines, impl, outs):
             c.evaluations += 1
             t0, toks = meta_of(line)
+            if " st ? " in want:
+                got = blind(got)
+            if "D" in toks:
+                want, got = no_ra(want), no_ra(got)
             if got != want:
                 if len(c.disagreements) < 200:
                     c.disagreements.append(dict(case="%d %s" % (t0, " ".join(toks)), impl=want, model=got))
@@ -861,6 +977,9 @@ def correspondence(ctx):
                     flush(True)
             flush(True)
         ctx.log("enumeration: %d sequences on the real code and the model in %.1fs" % (n_enum, _walltime.time() - t_start))
+        for toks in forget_sequences():
+            add(0, toks, run_impl(0, toks))
+            c.count("result-dropped-by-the-application")
         for toks in reuse_sequences():
             add(0, toks, run_impl(0, toks))
             c.count("reused-wrapper/late-request:" + ("timed" if toks[0][0] == "W" else "sync" if any(
@@ -904,9 +1023,11 @@ def correspondence(ctx):
                 c.samples.append(dict(case="simnet %r" % (sc,), outcome=" ".join(want)))
     for steps, (toks, seen), want, got in zip(reuse, reuse_toks, reuse_impl, reuse_outs):
         c.evaluations += 1
-        c.count("simnet:late-or-repeated-" + ("timed" if steps[0][0] == "W" else "sync" if any(
+        c.count("simnet:" + "fire-and-forget" if steps[0][0] == "F" else "simnet:late-or-repeated-" + (
+            "timed" if steps[0][0] == "W" else "sync" if any(
             st[0] == "Y" for st in steps) else "async_request"))
         view = [o for o, keep in zip(got.split(" st ")[0].split(" "), seen) if keep]
+        view.append("log" + got.split(" log")[1].split(" ")[0])
         if view != want:
             c.disagreements.append(dict(case="simnet-reuse %r = %s" % (steps, " ".join(toks)), impl=" ".join(want),
                                         model=" ".join(view)))
@@ -952,11 +1073,38 @@ def oracle_sequence(t0, toks):
             called_at = sim.clock.now
             n_busy = len(sim.busy)
             n_replies = len(sim.reply_times)
-            was_ready = sim.res._is_ready if c not in "YQZK" else False
+            was_ready = sim.res._is_ready if c not in "YQZK" and sim.res is not None else False
             log_before = list(sim.cblog)
             obs = sim.apply(tok).rsplit("@", 1)[0]
             now = sim.clock.now
             res = sim.res
+            if res is None:
+                # the application dropped its reference (D): nothing can be asked of the result any more, but the statement
+                # still says what its callbacks do: registered before the reply => run exactly once, in order, when the
+                # reply arrives (unless the expiry came first) - whether or not anybody still holds the result
+                new = [(cid, t) for cid, t, _ok in sim.cblog[len(log_before):]]
+                decided_now = False
+                for at in sim.reply_times[n_replies:]:
+                    if first_reply_seen:
+                        continue
+                    first_reply_seen = True
+                    if outcome is None:
+                        if deadline is None or at < deadline:
+                            want = [(cid, at) for cid, _t in registered]
+                            if new != want:
+                                return ("event %d (%s): the reply was dispatched at %s (expiry %s) after the application had "
+                                        "dropped its reference to the result: callbacks ran as %r, registered %r" % (
+                                            i, tok, fmt_t(at), deadline, new, want))
+                            outcome, decided_now = ("ready-unheld",), True
+                        else:
+                            outcome = ("expired",)
+                if outcome is None and deadline is not None and now >= deadline:
+                    outcome = ("expired",)
+                if new and not decided_now:
+                    return "event %d (%s): callbacks ran %r with no reply accepted in this event" % (i, tok, new)
+                if obs.startswith("raised:"):
+                    return "event %d (%s): raised %s" % (i, tok, obs[7:])
+                continue
             if obs.startswith("raised:"):
                 return ("event %d (%s): raised %s; an operation on a result only ever returns, raises the stored exception "
                         "(value) or the timeout error (wait/value)" % (i, tok, obs[7:]))
@@ -1082,7 +1230,7 @@ def shrink(t0, toks, pred):
 
 def signature_of(msg):
     m = msg.split("): ", 1)[-1]
-    for key in ("raised", "before the expiry", "not accepted", "callbacks", "callback", "changed", "became ready", "timeout raised",
+    for key in ("dropped its reference", "raised", "before the expiry", "not accepted", "callbacks", "callback", "changed", "became ready", "timeout raised",
                 "timeout error without", "while pending", "expired result", "ready result", "sync_request"):
         if key in m:
             return "c15:" + key.replace(" ", "-")
@@ -1119,7 +1267,7 @@ def oracle_search(ctx, corr, broken):
             cands.append((int(parts[0]), parts[1:]))
         except ValueError:
             pass
-    cands += [(0, s) for s in boundary_sequences()] + [(0, s) for s in reuse_sequences()]
+    cands += [(0, s) for s in boundary_sequences()] + [(0, s) for s in forget_sequences()] + [(0, s) for s in reuse_sequences()]
     for t0, toks in cands:
         msg = check(t0, toks)
         if msg:
